@@ -131,7 +131,7 @@ func newSpecDB0() *SpecDB {
 }
 
 var clauseKw = map[string]bool{"requires": true, "ensures": true, "modifies": true, "panics": true, "props": true,
-	"loop": true, "invariant": true, "pure": true, "stable": true, "assumed": true, "concurrent": true, "noinline": true, "unroll": true, "let": true, "decreases": true, "witness": true, "replay": true, "case": true, "use": true}
+	"loop": true, "invariant": true, "pure": true, "stable": true, "assumed": true, "concurrent": true, "noinline": true, "unroll": true, "let": true, "decreases": true, "witness": true, "replay": true, "case": true, "use": true, "objinv": true}
 var topKw = map[string]bool{"ilemma": true, "func": true, "iface": true, "callback": true, "ghost": true, "spec": true, "lemma": true}
 
 func firstWord(s string) (string, string) {
@@ -397,6 +397,15 @@ func (db *SpecDB) loadFile(path, pkgPath string) error {
 				} else {
 					cur.Wits = append(cur.Wits, cl)
 				}
+			case "objinv":
+				// representation invariant of the receiver/arguments: assumed at entry, not checked at call sites
+				label, props, body := parseLabel(rest)
+				e, err := parseExpr(body)
+				if err != nil {
+					return fail(err.Error())
+				}
+				cur.Requires = append(cur.Requires, &Clause{Kind: "objinv", Label: label, Text: body, Expr: e, Line: it.line, File: path, Props: props})
+				curLoop = nil
 			case "requires", "ensures", "invariant", "modifies":
 				label, props, body := parseLabel(rest)
 				c := &Clause{Kind: w, Label: label, Text: body, Line: it.line, File: path, Props: props}
